@@ -574,7 +574,7 @@ impl Check for C03 {
         }
     }
     fn num_cases(&self, tier: Tier) -> u64 {
-        tier.pick(6000, 100000)
+        tier.pick(6000, 60000)
     }
     fn builtin_corpus(&self) -> Vec<Case> {
         // the level-dependent fast-forward at and around the u16 overflow point (DESIGN.md §5 #4)
